@@ -156,7 +156,9 @@ PROP = dict(
     release_quick=3,
     rule="7 entry points in rotation (VnBest, VnFirst, KMeans 2D/3D, FiducciaMattheyses, KernighanLin, ArcSwap) x valid initial "
          "partitions with 1..8 parts (two-way algorithms: 1..2; one-sided and unbalanced included) x 6 weight families x 8 point "
-         "families x 6 graph families (random, grid, path, star, disconnected, cycle) x parameter choices (pass/move limits incl. "
+         "families x 6 graph families (random, grid, path, star, disconnected, cycle) + a HUB family (harness/src/hub.rs: star / wheel / complete "
+         "bipartite hub with 9..40 spokes, every spoke or every second spoke alone in its own part, 10..41 parts; 1 ArcSwap case in 12, "
+         "and the same many-part partitions for 1 VnBest / VnFirst / KMeans case in 40) x parameter choices (pass/move limits incl. "
          "0 and None, imbalance caps, k-means iteration limits) x rayon pool in {1,2,3,4,8,16}; distinct = distinct (algorithm, "
          "pool, parameters, input); non-trivial = at least 3 elements and 2 parts. "
          "K-MEANS MODEL CASES (second binary c02km, 640 / 3200 cases): KMeans 2D/3D on four streams -- exact (integer coordinates "
